@@ -155,7 +155,7 @@ pub fn init_library(cfg: &RunCfg) {
     let c = circ::verif::default_collector();
     circ::verif::set_global_epoch(c, cfg.start_epoch as usize);
     circ::verif::set_knobs(cfg.max_objects.max(1) as usize, cfg.manual_interval.max(1) as usize);
-    crate::payload::POP_POLICY.store(cfg.pop_policy as u8, SeqCst);
+    crate::payload::POP_POLICY.store(std::env::var("VERIF_POP_POLICY").ok().and_then(|v| v.parse().ok()).unwrap_or(cfg.pop_policy as u8), SeqCst);
     crate::interp::ORD_MODE.store(cfg.ord_mode as u8, SeqCst);
     crate::payload::DTOR_API.store(cfg.dtor_api as u8, SeqCst);
 }
@@ -176,7 +176,11 @@ fn run_interp<M: AlignMarker>(desc: &RunDesc) -> ! {
         std::mem::forget(probe);
     }
     let n = desc.threads.len();
-    let mut sh = Shadow::new(n + 1, circ::verif::addr_mask::<Node<M>>(), circ::verif::tag_mask::<Node<M>>());
+    // The tag bits the model expects are the unused low bits of a pointer to the payload type
+    // ("the tag is truncated to fit into the unused bits"), computed here from the type's alignment,
+    // not taken from the library: a cell is a (pointer, tag) pair over *those* tags (C08/C09).
+    let tag_mask = std::mem::align_of::<Node<M>>().max(std::mem::align_of::<u64>()) - 1;
+    let mut sh = Shadow::new(n + 1, circ::verif::addr_mask::<Node<M>>(), tag_mask);
     sh.global_epoch_addr = circ::verif::global_epoch_addr(circ::verif::default_collector());
     sh.block_size = circ::verif::block_layout::<Node<M>>().0;
     sh.ebr.enable(sh.global_epoch_addr);
